@@ -321,9 +321,9 @@ codec("C27",
 
 codec("C28",
       "round-trip monitor for Properties through the inline and packed encoders, Inscription::new (with/without brotli) and a reveal script, with a reference reader on a generic CBOR parser; totality monitor on hostile CBOR; bounded-decompression monitor: brotli streams around the 30:1 and 4,000,000-byte limits compared with a full decompression, peak heap of each decode measured by a counting global allocator; a dead shard process is a violation",
-      "Exploration: galleries of 0-1200 items (5000 thorough) with ids at every index byte length, titles/traits incl. i64 extremes, unicode, CBOR length boundaries; hostile CBOR classes (nesting to 3x10^5 / 2x10^6 deep, indefinite and 2^64 lengths, mutated valid encodings, schema abuse); brotli streams with ratio 1-60 and around 30, sizes around 4,000,000, bombs to 48 MB (256 MB thorough), truncated / trailing-garbage streams, other encodings. ord's quality-11 compressor limits the compressing path to about 10^3 values per quick run.",
+      "Exploration: galleries of 0-1200 items (5000 thorough) with ids at every index byte length, titles/traits incl. i64 extremes, unicode, CBOR length boundaries; hostile CBOR classes (nesting to 3x10^5 / 2x10^6 deep, indefinite and 2^64 lengths, valid encodings in which each header in turn (gallery, item, id, attributes, title, traits, names, values) declares a length of 2^56..2^64, mutated valid encodings, schema abuse); brotli streams with ratio 1-60 and around 30, sizes around 4,000,000, bombs to 48 MB (256 MB thorough), truncated / trailing-garbage streams, other encodings. ord's quality-11 compressor limits the compressing path to about 10^3 values per quick run.",
       "properties p (no duplicate trait names): from_cbor(inline(p)) = from_cbor(packed(p)) = p, reference reader agrees, Inscription::new(compress in {false,true}) then properties() directly and after a script round trip = p (a refusal with the documented size/ratio message is counted, not a violation). Hostile bytes: no panic, no process death. Bounded: properties_cbor() returns Some(v) iff encoding = br, the stream is valid and v = full decompression with len <= min(30 x compressed, 4,000,000); peak heap <= 2 x bound + 96 MiB (brotli ring buffer).",
-      {"evaluations": 1500, "roundtrip_ok_inline": 200, "roundtrip_ok_packed": 200, "reference_reader_agrees_packed": 200, "roundtrip_ok_new_compress_true": 50, "roundtrip_ok_script_compress_false": 100, "hostile_field_decoded": 300, "bounded_accepted_within_limits": 50, "bounded_refused_over_limit": 30, "bounded_class_ratio-edge": 20, "bounded_class_size-edge": 20, "bounded_class_bomb": 20, "ratio_sweep_roundtrip_ok": 20},
+      {"evaluations": 1500, "roundtrip_ok_inline": 200, "roundtrip_ok_packed": 200, "reference_reader_agrees_packed": 200, "roundtrip_ok_new_compress_true": 50, "roundtrip_ok_script_compress_false": 100, "hostile_field_decoded": 300, "huge_at_position_decoded_major5": 100, "huge_at_position_decoded_major3": 20, "bounded_accepted_within_limits": 50, "bounded_refused_over_limit": 30, "bounded_class_ratio-edge": 20, "bounded_class_size-edge": 20, "bounded_class_bomb": 20, "ratio_sweep_roundtrip_ok": 20},
       budget_quick=40)
 
 codec("C35",
